@@ -766,6 +766,11 @@ func (s *Store) Open() (retErr error) {
 		if err := os.Rename(s.peersPath, s.peersInfoPath); err != nil {
 			return fmt.Errorf("failed to move %s after recovery: %s", s.peersPath, err.Error())
 		}
+		// Recovery wrote a new snapshot, holding everything that was in the log, and then
+		// compacted the log. The database must be rebuilt from that snapshot, so any
+		// decision above to keep the existing SQLite file no longer holds.
+		raftConfig.NoSnapshotRestoreOnStart = false
+		removeDBFiles = true
 		s.logger.Printf("node recovered successfully using %s", s.peersPath)
 		stats.Add(numRecoveries, 1)
 	}
